@@ -1,6 +1,8 @@
 """Build cola operators from the case language (DESIGN.md 2.9).  Structurally equal
 sub-expressions are built once and shared (object identity = structural equality)."""
 import json
+from fractions import Fraction
+
 import numpy as np
 import shim  # noqa: F401
 import cola
@@ -13,10 +15,16 @@ DTN = {np.dtype(v): k for k, v in DT.items()}
 ANN = {"PSD": cola.PSD, "SelfAdjoint": cola.SelfAdjoint, "Unitary": cola.Unitary, "Stiefel": cola.Stiefel}
 
 
+def q(v):
+    if isinstance(v, dict):
+        return v["q"][0] / v["q"][1]
+    return v
+
+
 def z(v):
     if isinstance(v, list):
-        return complex(v[0], v[1])
-    return v
+        return complex(q(v[0]), q(v[1]))
+    return q(v)
 
 
 def arr(vals, dt, shape=None):
@@ -104,15 +112,23 @@ class Builder:
         raise ValueError(f"unknown tag {t}")
 
 
+def qcanon(x):
+    """float -> int if integral, else the exact dyadic fraction 'n/d' (the driver's format)"""
+    x = float(x)
+    if x == int(x):
+        return int(x)
+    f = Fraction(x)
+    return f"{f.numerator}/{f.denominator}"
+
+
 def exact_mat(a):
-    """ndarray -> nested lists of [re, im] integer pairs, or None if not integer-valued"""
+    """ndarray -> nested lists of [re, im] exact pairs (ints or 'n/d' strings); None if not finite"""
     a = np.asarray(a)
     re, im = np.real(a).astype(np.float64), np.imag(a).astype(np.float64)
     if not (np.all(np.isfinite(re)) and np.all(np.isfinite(im))):
         return None
-    if not (np.all(re == np.round(re)) and np.all(im == np.round(im))):
-        return None
-    re, im = re.astype(np.int64), im.astype(np.int64)
+    if a.ndim == 0:
+        return [qcanon(re), qcanon(im)]
     if a.ndim == 1:
-        return [[int(x), int(y)] for x, y in zip(re, im)]
-    return [[[int(x), int(y)] for x, y in zip(r1, r2)] for r1, r2 in zip(re, im)]
+        return [[qcanon(x), qcanon(y)] for x, y in zip(re, im)]
+    return [[[qcanon(x), qcanon(y)] for x, y in zip(r1, r2)] for r1, r2 in zip(re, im)]
